@@ -51,6 +51,7 @@ def run(prog, chk):
     remap_table(prog, chk)
     element_split_table(prog, chk)
     work_buffer_rule(prog, chk)
+    memreadn_table(prog, chk)
     refused_mutation(prog, chk)
     _run(prog, chk)
 
@@ -538,3 +539,46 @@ def work_buffer_rule(prog, chk, rule="C09.workbuf"):
                        loc=fn.loc(fn.elem_line(b, i)), fn=fn)
     if n < 6:
         raise AnalysisBroken("C09.workbuf: only %d scratch buffers recognised" % n)
+
+
+def memreadn_table(prog, chk):
+    """KSI_FTLV_memReadN: the descriptors it fills tile the buffer from offset 0, one per element, each offset the sum of the sizes
+    before it; it stops at the array's capacity, reports how many it read, and a buffer that ends inside an element (or holds a stray
+    octet) is an error.  Evaluated on buffers of 1..3 elements (8- and 16-bit headers) x array capacity x trailing octets."""
+    from ksirules.bufinterp import BufInterp
+    from ksirules.interp import TOP, Ptr, inline_model, succeed_model
+    chk.rule("C09.readn", "memReadN: descriptors tile the buffer in order with running offsets; capacity respected; a trailing fragment is an error (decision table)", floor=10)
+    fn = prog.fn("KSI_FTLV_memReadN", "fast_tlv.c")
+    bp, lp, ap, np_, rp = [p["n"] for p in fn.params]
+    els = {"a": ([0x01, 0x02], 2), "b": ([0x82, 0x21, 0x00, 0x03], 3), "c": ([0x05, 0x00], 0)}
+    for seq, cap, stray in (("a", 4, 0), ("ab", 4, 0), ("abc", 4, 0), ("abc", 2, 0), ("ba", 4, 0), ("ab", 4, 1), ("ab", 4, 3), ("a", 4, 1), ("cab", 3, 0), ("abc", None, 0), ("ab", None, 1), ("b", 1, 0)):
+        data, offs = [], []
+        for e in seq:
+            h, d = els[e]
+            offs.append((len(data), len(h), d))
+            data += h + [0xEE] * d
+        data += ([0x01, 0x05, 0xEE] + [0xEE] * 8)[:stray]          # a lone first octet of a header / a header whose payload (5 octets) is cut short
+        inputs = {bp: Ptr("M"), lp: len(data), ap: Ptr("ARR") if cap is not None else 0, np_: cap or 0, rp: Ptr("RD")}
+        for j, v in enumerate(data):
+            inputs["M[%d]" % j] = v
+        I = BufInterp(fn, {"M": len(data)}, inputs=inputs, call_model=inline_model(prog, {"KSI_FTLV_memRead", "parseHdr"}, fallback=succeed_model(prog, {})), on_unknown="stop", prog=prog,
+                      loop_bound=len(seq) + 4)
+        paths = I.run()
+        chk.paths += len(paths)
+        inst = "memReadN[elements %s%s, %s]" % ("+".join("%d" % (len(els[e][0]) + els[e][1]) for e in seq), " + %d stray" % stray if stray else "",
+                                                "array of %d" % cap if cap is not None else "counting only")
+        if len(paths) != 1 or paths[0].undetermined or paths[0].ret is TOP:
+            raise AnalysisBroken("KSI_FTLV_memReadN: evaluation not determined for %s: %s" % (inst, [q.undetermined[:1] for q in paths]))
+        q = paths[0]
+        rd = [t[2] for t in q.stores("*" + rp)] + [t[2] for t in q.stores("RD")]
+        take = len(seq) if cap is None else min(cap, len(seq))
+        complete = stray == 0 or (cap is not None and cap <= len(seq))
+        if complete:
+            got = [(I.read(q, "ARR[%d].off" % k), I.read(q, "ARR[%d].hdr_len" % k), I.read(q, "ARR[%d].dat_len" % k)) for k in range(take)] if cap is not None else None
+            ok = q.ret == 0 and rd[-1:] == [take] and (got is None or got == offs[:take])
+            what = "expected KSI_OK, %d element(s) reported%s; source: status %s, count %s, descriptors %s" % (
+                take, "" if got is None else " with (offset, header, payload) = %s" % offs[:take], q.ret, rd, got)
+        else:
+            ok = q.ret != 0
+            what = "expected an error (the buffer ends with %d octet(s) that are no element); source: status %s, count %s" % (stray, hex(q.ret) if isinstance(q.ret, int) else q.ret, rd)
+        chk.ob("C09.readn", inst, ok, what, loc=fn.loc(), fn=fn)
